@@ -315,8 +315,9 @@ Definition xv_thread {A B} (f : list str -> A -> list str * list B) : list str -
     end.
 
 (* the response keys and field names collected, in order; `visited` is the spec's visitedFragments.
+   `conds` = true is the specification (DoesFragmentTypeApply is consulted); false is read only by Exec/Known.v.
    Fuel: one unit per fragment entered; each fragment is entered at most once, so S (length frags) is enough. *)
-Fixpoint xv_collect_root (fuel : nat) (s : schema) (frags : list (str * xv_frag)) (apply_dirs : bool)
+Fixpoint xv_collect_root (fuel : nat) (s : schema) (frags : list (str * xv_frag)) (apply_dirs conds : bool)
     (object_type : str) (visited : list str) (sels : list selection) {struct fuel}
     : list str * list (str * str) :=
   match fuel with
@@ -334,13 +335,13 @@ Fixpoint xv_collect_root (fuel : nat) (s : schema) (frags : list (str * xv_frag)
                else match xv_assoc n frags with
                     | None => (n :: visited, [])
                     | Some f =>
-                        if xv_type_applies s object_type (xv_frag_cond f)
-                        then xv_collect_root fuel' s frags apply_dirs object_type (n :: visited) (xv_frag_sels f)
+                        if negb conds || xv_type_applies s object_type (xv_frag_cond f)
+                        then xv_collect_root fuel' s frags apply_dirs conds object_type (n :: visited) (xv_frag_sels f)
                         else (n :: visited, [])
                     end
            | SInline c dirs sub =>
                if apply_dirs && xv_skipped dirs then (visited, [])
-               else if match c with Some c => xv_type_applies s object_type c | None => true end
+               else if negb conds || match c with Some c => xv_type_applies s object_type c | None => true end
                     then xv_thread go visited sub
                     else (visited, [])
            end) visited sels
@@ -378,7 +379,8 @@ Fixpoint xv_root_level_dirs (fuel : nat) (frags : list (str * xv_frag)) (visited
 Definition xv_has_skip_include (dirs : list directive) : bool :=
   existsb (fun d => streq (d_name d) xs_skip || streq (d_name d) xs_include) dirs.
 
-Definition xv_subscription_ok (p : xv_params) (s : schema) (frags : list (str * xv_frag)) (o : xv_op) : bool :=
+Definition xv_subscription_ok_gen (conds : bool) (p : xv_params) (s : schema) (frags : list (str * xv_frag))
+    (o : xv_op) : bool :=
   match xo_type o with
   | OpSubscription =>
       match xv_root s OpSubscription with
@@ -387,7 +389,7 @@ Definition xv_subscription_ok (p : xv_params) (s : schema) (frags : list (str * 
           (* with the apollo switch on, a conditional root selection is an error by itself and the fields are
              collected without evaluating the directives *)
           let apply_dirs := negb (xp_subscription_skip_include_rule p) in
-          let collected := snd (xv_collect_root (S (length frags)) s frags apply_dirs st [] (xo_sels o)) in
+          let collected := snd (xv_collect_root (S (length frags)) s frags apply_dirs conds st [] (xo_sels o)) in
           match xv_keys_distinct collected with
           | [_] => forallb (fun kn => negb (xv_is_introspection_name (snd kn))) collected
           | _ => false
@@ -395,6 +397,7 @@ Definition xv_subscription_ok (p : xv_params) (s : schema) (frags : list (str * 
       end
   | _ => true
   end.
+Definition xv_subscription_ok := xv_subscription_ok_gen true.
 Definition xv_r_subscription_single_root (p : xv_params) (s : schema) (d : document) : bool :=
   forallb (xv_subscription_ok p s (xv_frags d)) (xv_ops d).
 
@@ -780,29 +783,36 @@ Definition xv_r_variables_input_types (s : schema) (d : document) : bool :=
   forallb (fun o => forallb (xv_var_input_type s) (xo_vars o)) (xv_ops d).
 
 (* a variable usage: the name and, where the position has an expected type, that type and whether the
-   position (argument or input object field) has a default value *)
-Definition xv_usage := (str * option (ty * bool))%type.
+   position (argument or input object field) has a default value.  Two facts about the position are recorded
+   for Exec/Known.v (the rules of this file do not read them): whether the usage is nested inside a list or
+   object literal, and whether it is inside an object literal written for a custom scalar. *)
+Record xv_usage := { xu_name : str; xu_loc : option (ty * bool); xu_nested : bool; xu_in_scalar_object : bool }.
 
 (* the usages inside a value written where `expected` is expected.  5.8.5: "the expected type of the Argument,
    ObjectField, or ListValue entry where variableUsage is located".  Where the text is silent graphql-js's
    TypeInfo is followed: an entry of a list literal written for a type that is not a list type is expected to
    have that same type (ListValue: `isListType(listType) ? listType.ofType : listType`); a field of an object
    literal written for a type that is not an input object type (a custom scalar) has no expected type. *)
-Fixpoint xv_value_usages (s : schema) (expected : option (ty * bool)) (v : value) {struct v} : list xv_usage :=
+Fixpoint xv_value_usages (s : schema) (expected : option (ty * bool)) (nested in_so : bool) (v : value)
+    {struct v} : list xv_usage :=
   match v with
-  | VVar n => [(n, expected)]
+  | VVar n => [ {| xu_name := n; xu_loc := expected; xu_nested := nested; xu_in_scalar_object := in_so |} ]
   | VList l =>
       let item := match expected with
                   | Some (TList i, _) | Some (TNonNullList i, _) => Some (i, false)
                   | Some (t, _) => Some (t, false)
                   | None => None
                   end in
-      flat_map (xv_value_usages s item) l
+      flat_map (xv_value_usages s item true in_so) l
   | VObject fs =>
       let defs := match expected with
                   | Some (t, _) => xv_input_fields s (inner_named_type t)
                   | None => None
                   end in
+      let in_so' := in_so || match expected with
+                             | Some (t, _) => xv_custom_scalar s (inner_named_type t)
+                             | None => false
+                             end in
       flat_map (fun kv => match kv with
                           | (k, x) =>
                               xv_value_usages s
@@ -812,7 +822,7 @@ Fixpoint xv_value_usages (s : schema) (expected : option (ty * bool)) (v : value
                                                | None => None
                                                end
                                 | None => None
-                                end x
+                                end true in_so' x
                           end) fs
   | _ => []
   end.
@@ -825,7 +835,7 @@ Definition xv_site_usages (s : schema) (site : xv_argsite) : list xv_usage :=
                                       | None => None
                                       end
                        | None => None
-                       end (snd a)) (snd site).
+                       end false false (snd a)) (snd site).
 
 (* the usages in scope of an operation: its own directives and selections, and the directives and selections
    of every fragment it reaches *)
@@ -848,12 +858,12 @@ Fixpoint xv_find_var (n : str) (l : list vardef) : option vardef :=
 
 (* 5.8.3 All Variable Uses Defined *)
 Definition xv_r_variables_defined (s : schema) (d : document) : bool :=
-  forallb (fun o => forallb (fun u => xv_is_some (xv_find_var (fst u) (xo_vars o)))
+  forallb (fun o => forallb (fun u => xv_is_some (xv_find_var (xu_name u) (xo_vars o)))
                             (xv_op_usages s (xv_frags d) o)) (xv_ops d).
 
 (* 5.8.4 All Variables Used *)
 Definition xv_r_variables_used (s : schema) (d : document) : bool :=
-  forallb (fun o => forallb (fun v => xv_mem (v_name v) (map fst (xv_op_usages s (xv_frags d) o))) (xo_vars o))
+  forallb (fun o => forallb (fun v => xv_mem (v_name v) (map xu_name (xv_op_usages s (xv_frags d) o))) (xo_vars o))
           (xv_ops d).
 
 (* 5.8.5 All Variable Usages Are Allowed: IsVariableUsageAllowed is Exec/Compat.v's compat_usage_allowed,
@@ -863,7 +873,7 @@ Definition xv_usage_allowed (vd : vardef) (loc : ty * bool) : bool :=
   compat_usage_allowed {| cv_ty := v_ty vd; cv_default := option_map xv_cv (v_default vd) |}
                        {| cu_ty := fst loc; cu_default := if snd loc then Some CvOther else None |}.
 Definition xv_r_variable_usages_allowed (s : schema) (d : document) : bool :=
-  forallb (fun o => forallb (fun u => match xv_find_var (fst u) (xo_vars o), snd u with
+  forallb (fun o => forallb (fun u => match xv_find_var (xu_name u) (xo_vars o), xu_loc u with
                                       | Some vd, Some loc => xv_usage_allowed vd loc
                                       | _, _ => true
                                       end) (xv_op_usages s (xv_frags d) o)) (xv_ops d).
